@@ -40,6 +40,9 @@ pub enum ChunkMode {
     ReserveOver,
     /// reserve one byte at a time-ish (small reservations)
     ReserveSmall,
+    /// reserve, and use whatever `capacity()` already shows without waiting for the
+    /// notification; wait only when it shows nothing (the notification may then be stale)
+    ReservePeek,
 }
 
 #[derive(Debug, Clone)]
@@ -208,7 +211,7 @@ pub fn gen_body(t: &Tape, ws: &WorkSpace, iws_hint: u32, mfs_hint: u32) -> BodyP
         len = len.min(left);
         left -= len;
         let mode = if ws.reserve {
-            *t.pick(Lane::Work, &[ChunkMode::Direct, ChunkMode::Reserve, ChunkMode::ReserveOver, ChunkMode::ReserveSmall])
+            *t.pick(Lane::Work, &[ChunkMode::Direct, ChunkMode::Reserve, ChunkMode::ReserveOver, ChunkMode::ReserveSmall, ChunkMode::ReservePeek])
         } else {
             ChunkMode::Direct
         };
@@ -451,13 +454,17 @@ pub async fn send_body(ctx: Ctx, name: String, side: u8, mut ss: h2::SendStream<
             let mut take = rem;
             if chunk.mode != ChunkMode::Direct && rem > 0 {
                 let want = match chunk.mode {
-                    ChunkMode::Reserve => rem,
+                    ChunkMode::Reserve | ChunkMode::ReservePeek => rem,
                     ChunkMode::ReserveOver => rem + 1000,
                     _ => rem.min(7),
                 };
                 ss.reserve_capacity(want);
+                let peek = if chunk.mode == ChunkMode::ReservePeek { ss.capacity() } else { 0 };
                 ctx.status.set(&name, "poll_capacity");
                 let got = poll_fn(|cx| {
+                    if peek > 0 {
+                        return Poll::Ready(Some(Ok(peek)));
+                    }
                     if coop && cancel.check(cx.waker()) {
                         return Poll::Ready(Some(Ok(usize::MAX)));
                     }
